@@ -306,6 +306,15 @@ def float_zero_axioms():
 THEORIES['floatzero'] = float_zero_axioms
 
 
+def float_one_axioms():
+    """IEEE: x * 1 == x"""
+    x = z3.Const('fo_x', Val)
+    return [z3.ForAll([x], vmul(x, vlit(1)) == x, patterns=[vmul(x, vlit(1))])]
+
+
+THEORIES['floatone'] = float_one_axioms
+
+
 # C's end-of-row scan: `if (cell < acc) acc = cell` from an initial accumulator.
 def cmin(acc, cell):
     return z3.If(vlt(cell, acc), cell, acc)
